@@ -247,3 +247,24 @@ func init() {
 		s.obs("symlink ok")
 	})
 }
+
+func init() {
+	// createshared A B k s n ... m M x X : two files created from ONE ArchiveInfoList value (a schema
+	// parsed once, Create called in a loop); both handles stay open as A and B
+	register("createshared", func(s *sess, tk []string) {
+		fa, fb := s.file(tk[1]), s.file(tk[2])
+		l, rest := parseLayout(tk[3:])
+		m := wt.AggregationMethod(atoi(rest[1]))
+		x := math.Float32frombits(uint32(hex64(rest[3])))
+		for _, f := range []*dbfile{fa, fb} {
+			db, err := wt.Create(f.path, l, m, x, wt.WithoutFlock())
+			if err != nil {
+				s.obs("createshared err")
+				return
+			}
+			f.db = db
+			f.digest, f.size = fileDigest(f.path)
+		}
+		s.obs("createshared ok")
+	})
+}
